@@ -55,6 +55,7 @@ impl Template {
 //@ sig fn render_to(&self, writer: &mut Sink, runtime: &dyn Runtime) -> (r: Result<()>)
 //@ spec
     requires !old(writer).failed@,
+        runtime.writable(),                                                            // [C02:scope_has_assignment_and_counter_layers]
     ensures
         sink_safe(*old(writer), *final(writer), r),                                               // [C10:template_failed_sink_is_error]
         // Ok: a prefix of the elements was rendered, in order, each exactly once (all of them unless an interrupt was raised)
@@ -69,7 +70,7 @@ impl Template {
     invariant_except_break
         writer.log@ == old(writer).log@ + children(self, runtime.ident(), it.index@),
     invariant
-        !writer.failed@,
+        !writer.failed@, runtime.writable(),
         0 <= it.index@ <= self.elements@.len(),
     ensures
         exists|k: int| 0 <= k <= self.elements@.len() && writer.log@ == old(writer).log@ + #[trigger] children(self, runtime.ident(), k),
